@@ -192,6 +192,15 @@ Proof.
   split; [exact I|]. repeat split; vm_compute; reflexivity.
 Qed.
 
+(** [dom] as a boolean the harness can evaluate ([nodup_b]: no two statements
+    of the local reading are equal) *)
+Theorem C15_dom_boolean : forall c G,
+  C15_dom (c_allow_num c) (c_tau c) G && nodup_b (local_graph G) = true -> dom c G.
+Proof.
+  intros c G H. apply andb_true_iff in H. destruct H as [H1 H2]. split; [exact H1 | apply nodup_b_ok; exact H2].
+Qed.
+Print Assumptions C15_dom_boolean.
+
 (** the cache statement (b): "with the cache ON the result is the same", said
     in full for the model; its domain: [dom] asks [NoDup (local_graph G)] -- no
     two served statements are read alike locally -- and [C15_dom] that every
